@@ -204,6 +204,26 @@ namespace util {
 	};
 
 
+	/// \cond INTERNAL
+	namespace details {
+		///
+		/// Give a stream its buffer back. std::ios::rdbuf(sb) clears the error state of the stream:
+		/// what had failed before the buffer was replaced (\a before) or while it was stays failed.
+		///
+		inline void restore_rdbuf(std::ostream &out,std::streambuf *buf,std::ios_base::iostate before)
+		{
+			std::ios_base::iostate failed = (before | out.rdstate()) & (std::ios_base::badbit | std::ios_base::failbit);
+			out.rdbuf(buf);
+			if(failed) {
+				try {
+					out.setstate(failed);
+				}
+				catch(...) {}
+			}
+		}
+	}
+	/// \endcond
+
 	///
 	/// \brief This is a special buffer that allows to "steal" some chunk
 	/// of text from the output stream.
@@ -226,6 +246,7 @@ namespace util {
 		{
 			stolen_ = 0;
 			stream_ = 0;
+			state_ = std::ios_base::goodbit;
 			steal(out);
 		}
 		///
@@ -235,6 +256,7 @@ namespace util {
 		{
 			stolen_ = 0;
 			stream_ = 0;
+			state_ = std::ios_base::goodbit;
 		}
 		///
 		/// Steal the buffer from \a out
@@ -242,6 +264,7 @@ namespace util {
 		void steal(std::ostream &out)
 		{
 			release();
+			state_ = out.rdstate();
 			stolen_ = out.rdbuf(this);
 			stream_ = &out;
 		}
@@ -252,7 +275,7 @@ namespace util {
 		void release()
 		{
 			if(stream_ && stolen_) {
-				stream_->rdbuf(stolen_);
+				details::restore_rdbuf(*stream_,stolen_,state_);
 			}
 			stream_ = 0;
 			stolen_ = 0;
@@ -264,6 +287,7 @@ namespace util {
 	private:
 		std::streambuf *stolen_;
 		std::ostream *stream_;
+		std::ios_base::iostate state_;
 	};
 
 	///
@@ -318,11 +342,11 @@ namespace util {
 	template<typename Filter,int BufferSize=128>
 	class filterbuf : public std::streambuf {
 	public:
-		filterbuf() : output_(0), output_stream_(0)
+		filterbuf() : output_(0), output_stream_(0), state_(std::ios_base::goodbit)
 		{
 			setp(buffer_,buffer_+BufferSize);
 		}
-		filterbuf(std::ostream &out) : output_(0), output_stream_(0)
+		filterbuf(std::ostream &out) : output_(0), output_stream_(0), state_(std::ios_base::goodbit)
 		{
 			setp(buffer_,buffer_+BufferSize);
 			steal(out);
@@ -338,6 +362,7 @@ namespace util {
 		{
 			release();
 			output_stream_ = &out;
+			state_ = out.rdstate();
 			output_ = out.rdbuf(this);
 		}
 		int release()
@@ -346,7 +371,7 @@ namespace util {
 			if(output_stream_) {
 				if(write()!=0)
 					r=-1;
-				output_stream_->rdbuf(output_);
+				details::restore_rdbuf(*output_stream_,output_,state_);
 				output_=0;
 				output_stream_=0;
 			}
@@ -376,15 +401,16 @@ namespace util {
 		char buffer_[BufferSize];
 		std::streambuf *output_;
 		std::ostream *output_stream_;
+		std::ios_base::iostate state_;
 	};
 	
 	template<typename Filter>
 	class filterbuf<Filter,0> : public std::streambuf {
 	public:
-		filterbuf() : output_(0), output_stream_(0)
+		filterbuf() : output_(0), output_stream_(0), state_(std::ios_base::goodbit)
 		{
 		}
-		filterbuf(std::ostream &out) : output_(0), output_stream_(0)
+		filterbuf(std::ostream &out) : output_(0), output_stream_(0), state_(std::ios_base::goodbit)
 		{
 			steal(out);
 		}
@@ -396,13 +422,14 @@ namespace util {
 		{
 			release();
 			output_stream_ = &out;
+			state_ = out.rdstate();
 			output_ = out.rdbuf(this);
 		}
 		int release()
 		{
 			int r=0;
 			if(output_stream_) {
-				output_stream_->rdbuf(output_);
+				details::restore_rdbuf(*output_stream_,output_,state_);
 				output_=0;
 				output_stream_=0;
 			}
@@ -435,6 +462,7 @@ namespace util {
 		}
 		std::streambuf *output_;
 		std::ostream *output_stream_;
+		std::ios_base::iostate state_;
 	};
 	
 } // util
